@@ -215,6 +215,7 @@ type Frame struct {
 	defers    []deferRec
 	rets      []retRec
 	caller    *Frame
+	owner     *Frame // clause frames: the frame of the function whose contract is evaluated
 	oldSt     *State // pre-state for old(...) in clause functions
 	oldIns    map[ssa.Instruction]bool
 	allOld    bool
@@ -713,7 +714,7 @@ func (e *Engine) runLoop(fr *Frame, li *loopInfo, edgesIn []edge) map[*ssa.Basic
 	// vacuity guard: some iteration of the body can complete under the
 	// invariants (a contradictory precondition or invariant would make every
 	// obligation of the body trivially true)
-	if !fr.clause && e.quiet == 0 && len(backs) > 0 && invs != nil && len(invs.Invs) > 0 {
+	if !fr.clause && e.quiet == 0 && len(backs) > 0 && invs != nil && len(invs.Invs) > 0 && strings.Count(fr.path, ">") <= 1 {
 		var pcs []*Term
 		for _, b := range backs {
 			pcs = append(pcs, b.pc)
@@ -772,6 +773,7 @@ func (e *Engine) havocFor(fr *Frame, stIn *State, phis []*ssa.Phi, dirty map[str
 		if phi.Comment == "rangeindex" {
 			// the implicit index of a range loop starts at -1 and only grows
 			e.axiom(Ge(f, IntT(-1)))
+			NoteLowerBound(f, IntT(-1))
 		}
 		if phi.Comment == "rangeint.iter" {
 			e.axiom(Ge(f, IntT(0)))
@@ -1757,6 +1759,29 @@ func splitGoal(g *Term, depth int) []*Term {
 				out = append(out, Or(append(append([]*Term{}, rest...), p)...))
 			}
 			return out
+		}
+	case "=":
+		// an equation between choices: one goal per branch, the branch
+		// condition becomes a premise and decides the other side as well
+		if len(g.Args) == 2 && g.Args[0].Sort == StringS {
+			for k := 0; k < 2; k++ {
+				x, y := g.Args[k], g.Args[1-k]
+				if x.Op != "ite" {
+					continue
+				}
+				c := x.Args[0]
+				var out []*Term
+				for _, br := range [][2]*Term{{c, x.Args[1]}, {Not(c), x.Args[2]}} {
+					sub := Eq(br[1], Restrict(y, br[0]))
+					for _, p := range splitGoal(sub, depth+1) {
+						out = append(out, Implies(br[0], p))
+					}
+				}
+				if len(out) <= 24 {
+					return out
+				}
+				break
+			}
 		}
 	case "forall":
 		parts := splitGoal(g.Args[0], depth+1)
